@@ -220,9 +220,17 @@ ChooseBareHttp ==
        \/ /\ scn.hd.end.code = 1 /\ scn.hd.end.msg = "ascii" /\ scn.hd.end.details = 0 /\ scn.hd.end.how = "normal"
           \* (style "jsoncode": the bare failure carries a JSON body of the backend's own making that begins with a
           \*  numeric "code" but is not the protocol's error object)
-          /\ \E st \in HttpStatuses, sty \in (IF Enveloped(Srv.form) THEN {"declared"} ELSE {"declared", "jsoncode"}) :
+          /\ \E st \in HttpStatuses, sty \in (IF Enveloped(Srv.form) THEN {"declared"} ELSE {"declared", "jsoncode"}),
+                \* (nopass: client and backend speak the same protocol and codec, but the service accepts no compression
+                \*  and the client compresses - the route converts, it is not a pass-through)
+                nopass \in (IF Srv.proto = ProtoOf(scn.cl.form) /\ Srv.codec = ClientCodec(scn.cl) /\ scn.cl.comp = "" /\ Len(scn.cl.frames) = 1
+                            THEN BOOLEAN ELSE {FALSE}) :
                scn' = [scn EXCEPT !.hd.end = [DefaultEnd EXCEPT !.how = "barehttp", !.code = 0, !.style = sty], !.hd.status = st,
-                                  !.hd.frames = <<>>, !.hd.errat = 0]
+                                  !.hd.frames = <<>>, !.hd.errat = 0,
+                                  !.cfg.comps = IF nopass THEN <<>> ELSE @,
+                                  !.cl.comp = IF nopass THEN "gzip" ELSE @,
+                                  !.cl.accept = IF nopass THEN <<"gzip">> ELSE @,
+                                  !.cl.frames = IF nopass THEN <<[scn.cl.frames[1] EXCEPT !.z = TRUE]>> ELSE @]
     /\ ph' = "run"
     /\ UNCHANGED m
 
@@ -302,7 +310,8 @@ ChooseChunks ==
 \* exactly at, just below and just above the URL the transcoder would issue
 ChooseGetOpts ==
     /\ ph = "getopts"
-    /\ \E b \in (IF scn.cl.form = "connect_get" THEN {"", "1", "pad"} ELSE {""}), gd \in {"", "m1", "0", "p1"} :
+    \* ("hdr": the Connect GET names its protocol version in the Connect-Protocol-Version header, not as connect=v1)
+    /\ \E b \in (IF scn.cl.form = "connect_get" THEN {"", "1", "pad", "hdr"} ELSE {""}), gd \in {"", "m1", "0", "p1"} :
          scn' = [scn EXCEPT !.cl.b64 = b, !.cl.getdelta = gd]
     /\ ph' = "run"
     /\ UNCHANGED m
